@@ -75,3 +75,34 @@ Proof. vm_compute. auto. Qed.
 Example ex_layout_ranges :
   in_ranges (map fst [(2,1);(1,3)]) (map fst [(3,3);(2,4)]) /\ in_ranges (map snd [(2,1);(1,3)]) (map snd [(3,3);(2,4)]).
 Proof. split; simpl; repeat (apply Forall2_cons; [lia|]); apply Forall2_nil. Qed.
+
+(* generic core: one level with the dense 2x2 pattern, scalar "blocks"; B is NOT symmetric,
+   so the result shows the skip rule (entry (0,1) never computed) and the mirrored store *)
+Definition ex_b0 : list (Z * Z) := [(0,0);(0,1);(1,0);(1,1)].
+Definition ex_t0 : list nat := [0;2;1;3]%nat.
+Definition ex_B (i j : list Z) (c : nat) : Z := 10 * hd 0 i + hd 0 j + 1.
+
+Example ex_transpose_idx : transpose_idx ex_b0 = Some ex_t0.
+Proof. vm_compute. reflexivity. Qed.
+
+Example ex_core_full : core_entries 0 1 1 ex_B false [(ex_b0, ex_t0)] = [1; 2; 11; 12].
+Proof. vm_compute. reflexivity. Qed.
+
+Example ex_core_sym : core_entries 0 1 1 ex_B true [(ex_b0, ex_t0)] = [1; 11; 11; 12].
+Proof. vm_compute. reflexivity. Qed.
+
+(* two levels, 2x2 component blocks: the tasks of the prange *)
+Example ex_core_tasks_count :
+  length (core_tasks 2 2 ex_B true [(ex_b0, ex_t0); (ex_b0, ex_t0)]) = 4%nat /\
+  nth 1 (core_tasks 2 2 ex_B true [(ex_b0, ex_t0); (ex_b0, ex_t0)]) [] = [] /\
+  length (nth 2 (core_tasks 2 2 ex_B true [(ex_b0, ex_t0); (ex_b0, ex_t0)]) []) = 32%nat.
+Proof. vm_compute. auto. Qed.
+
+Example ex_b0_nodup : NoDup (fst (ex_b0, ex_t0)).
+Proof. simpl. repeat (constructor; [simpl; intuition congruence|]). constructor. Qed.
+
+Example ex_transp_ok : transp_ok (ex_b0, ex_t0).
+Proof.
+  intros m Hm. simpl in Hm.
+  destruct m as [|[|[|[|m]]]]; try (simpl in Hm; lia); vm_compute; split; try reflexivity; lia.
+Qed.
